@@ -167,7 +167,7 @@ Print Assumptions eviction_f2_refuted.
    of n.Left and of n.Right makes the parent collapse the branch away even for
    an absent key (the transient variant of finding F1). ---- *)
 Theorem remove_eviction_off_path_invisible :
-  forall k es s, inv_r s -> rlegal_run k evicts s es -> whole_r k (rrun k s es) = whole_r k s.
+  forall k es s, inv_r k s -> rlegal_run k evicts s es -> whole_r k (rrun k s es) = whole_r k s.
 Proof. exact StepProofs.remove_eviction_off_path_invisible. Qed.
 Print Assumptions remove_eviction_off_path_invisible.
 
